@@ -394,6 +394,90 @@ def fingerprint_definition(chk: Check, R: str) -> None:
     chk.ob(R, "fingerprint is a pure function of the certificate", okp)
 
 
+def option_wiring(chk: Check, R: str, option: str, consequence: str) -> None:
+    """Every GeminiClient construction passes `option` as the caller's own
+    option (a parameter, unaltered), a literal, an attribute, or not at all."""
+    n = 0
+    for fi in chk.proj.functions.values():
+        for c in [x for x in ast.walk(fi.node) if isinstance(x, ast.Call)]:
+            if (dotted(c.func) or "").split(".")[-1] != "GeminiClient":
+                continue
+            n += 1
+            v = kwarg(c, option)
+            scopes = [fi]
+            q = fi.qualname
+            while "." in q:
+                q = q.rsplit(".", 1)[0]
+                outer = chk.proj.functions.get(f"{fi.module.name}:{q}")
+                if outer is not None:
+                    scopes.append(outer)
+            params = {a.arg for sc in scopes for a in sc.node.args.args + sc.node.args.kwonlyargs}
+
+            def explicit(e, depth=0, _scopes=scopes, _params=params):
+                if e is None or isinstance(e, ast.Constant):
+                    return True
+                if isinstance(e, ast.Attribute):
+                    return dotted(e) is not None
+                if isinstance(e, ast.Name):
+                    if e.id in _params:
+                        return True
+                    ds = [st.value for sc in _scopes for st in ast.walk(sc.node) if isinstance(st, ast.Assign) and any(isinstance(t, ast.Name) and t.id == e.id for t in st.targets)]
+                    return bool(ds) and depth < 3 and all(explicit(d, depth + 1) for d in ds)
+                return False
+
+            ok = explicit(v)
+            if not ok:
+                chk.finding(R, fi.key, f"option-rewritten:{option}={norm(v)[:40]}", f"the client is built with {option}={norm(v)}: the caller's value is replaced under some condition, so {consequence}", fi.loc(c))
+            chk.ob(R, f"{fi.key}: GeminiClient({option}={norm(v) if v is not None else 'default'}) is the caller's own value", ok)
+    chk.require(R, "client.session:GeminiClient", "client construction sites", n, 1, "the package never constructs its client")
+
+
+def tofu_wiring(chk: Check, R: str) -> None:
+    """Pin checking is switched off only by an explicit decision: every
+    construction of the client in the package passes trust_on_first_use as the
+    caller's own option (a parameter, unaltered), a literal, or not at all
+    (default on).  A value computed from *other* options (`... and not
+    verify_ssl`) silently drops pin verification for some invocations."""
+    n = 0
+    for fi in chk.proj.functions.values():
+        for c in [x for x in ast.walk(fi.node) if isinstance(x, ast.Call)]:
+            if (dotted(c.func) or "").split(".")[-1] != "GeminiClient":
+                continue
+            n += 1
+            v = kwarg(c, "trust_on_first_use")
+            # the function and the functions it is nested in (closures read outer parameters)
+            scopes = [fi]
+            q = fi.qualname
+            while "." in q:
+                q = q.rsplit(".", 1)[0]
+                outer = chk.proj.functions.get(f"{fi.module.name}:{q}")
+                if outer is not None:
+                    scopes.append(outer)
+            params = {a.arg for sc in scopes for a in sc.node.args.args + sc.node.args.kwonlyargs}
+
+            def explicit(e, depth=0):
+                if e is None or isinstance(e, ast.Constant):
+                    return True
+                if isinstance(e, ast.Attribute):
+                    return dotted(e) is not None
+                if isinstance(e, ast.Name):
+                    if e.id in params:
+                        return True
+                    ds = [st.value for sc in scopes for st in ast.walk(sc.node) if isinstance(st, ast.Assign) and any(isinstance(t, ast.Name) and t.id == e.id for t in st.targets)]
+                    return bool(ds) and depth < 3 and all(explicit(d, depth + 1) for d in ds)
+                return False
+
+            ok = explicit(v)
+            if not ok:
+                chk.finding(
+                    R, fi.key, f"tofu-conditional:{norm(v)[:50]}",
+                    f"the client is built with trust_on_first_use={norm(v)}: pin verification is switched off as a side effect of another option, so a pinned host presenting a different certificate is accepted (and the request sent) on those invocations",
+                    fi.loc(c),
+                )
+            chk.ob(R, f"{fi.key}: GeminiClient(trust_on_first_use={norm(v) if v is not None else 'default'}) is an explicit choice", ok)
+    chk.require(R, "client.session:GeminiClient", "client construction sites", n, 1, "the package never constructs its client")
+
+
 def rule_t4(chk: Check) -> None:
     chk.rule("T4", "fingerprint = sha256 over cert.public_bytes(DER) by default; no caller overrides the algorithm; verify/trust compute it from their cert and compare with ==")
     fingerprint_definition(chk, "T4")
@@ -562,6 +646,8 @@ def run(chk: Check) -> None:
     rule_t5(chk)
     rule_t6(chk)
     rule_t7(chk, funcs)
+    chk.rule("T10", "pin checking is switched off only by an explicit decision: every GeminiClient construction passes trust_on_first_use as the caller's own option, a literal, or the default")
+    tofu_wiring(chk, "T10")
     from .c19 import wire_fidelity
 
     wire_fidelity(chk, "T9", "the TOFU key is canonical: ParsedURL.hostname is the lower-cased, unbracketed host and .port the effective port for every spelling (= C19.N1-N3), so one host:port has one pin")
